@@ -53,8 +53,27 @@ def base(f):
     setd = m.dimensions[1]
     ft = t.create_feature(a, nixio.LinkType.Tagged)
     df = b.create_data_frame("df", "t", col_dict={"x": int, "y": float}, data=[(1, 2.0), (3, 4.0)])
-    return dict(f=f, b=b, b2=b2, a=a, m=m, foreign=foreign, p=p, t=t, mt=mt, s=s, sub=sub, pr=pr, g=g, src=src, d=d, sd=sd, setd=setd,
+    df5 = b.create_data_frame("df5", "t", col_dict={"x": float, "y": float}, data=[(float(i), 2.0 * i) for i in range(5)])   # more rows than columns
+    host = b.create_data_array("host", "t", data=np.zeros((3, 3)))
+    ld = host.append_range_dimension()
+    ld.link_data_array(a, [-1])                       # a range dimension that is linked already
+    ls = host.append_set_dimension()
+    ls.link_data_array(a, [-1])
+    a.metadata = s                                    # existing metadata links (a refused re-assignment must keep them)
+    t.metadata = sub
+    return dict(df5=df5, host=host, ld=ld, ls=ls, f=f, b=b, b2=b2, a=a, m=m, foreign=foreign, p=p, t=t, mt=mt, s=s, sub=sub, pr=pr, g=g, src=src, d=d, sd=sd, setd=setd,
                 ft=ft, df=df)
+
+
+def cross_file_metadata(c, key):
+    """assign a section of ANOTHER file as metadata (HDF5 refuses hard links between files)"""
+    path = os.path.join(os.getcwd(), "other.nix")
+    g = nixio.File.open(path, nixio.FileMode.Overwrite)
+    try:
+        c[key].metadata = g.create_section("o", "t")
+    finally:
+        g.close()
+        os.remove(path)
 
 
 def setter(key, attr, value):
@@ -192,6 +211,41 @@ TRIALS = [
     ("Section.create_property(integer beyond int64)", "value out of range", lambda c: c["s"].create_property("big", [2 ** 70]),
      lambda c: c["s"].create_property("big", [1])),
     ("Property.values = [integer beyond int64]", "value out of range", lambda c: setattr(c["s"].props["pr"], "values", [2 ** 70]), None),
+    ("RangeDimension.link_data_frame(column index beyond the columns, within the rows)", "out-of-range index",
+     lambda c: c["d"].link_data_frame(c["df5"], 3), None),
+    ("RangeDimension.link_data_frame(column 9)", "out-of-range index", lambda c: c["d"].link_data_frame(c["df5"], 9), None),
+    ("RangeDimension.link_data_frame(column -1)", "out-of-range index", lambda c: c["d"].link_data_frame(c["df5"], -1), None),
+    ("RangeDimension.link_data_frame(column 0.5)", "inconsistent data type", lambda c: c["d"].link_data_frame(c["df5"], 0.5), None),
+    ("RangeDimension.link_data_frame(column '1')", "inconsistent data type", lambda c: c["d"].link_data_frame(c["df5"], "1"), None),
+    ("SetDimension.link_data_frame(column beyond the columns)", "out-of-range index", lambda c: c["setd"].link_data_frame(c["df5"], 3), None),
+    ("SetDimension.link_data_frame(column 0.5)", "inconsistent data type", lambda c: c["setd"].link_data_frame(c["df5"], 0.5), None),
+    ("linked RangeDimension.link_data_frame(column beyond the columns)", "out-of-range index", lambda c: c["ld"].link_data_frame(c["df5"], 3), None),
+    ("linked RangeDimension.link_data_frame(column 0.5)", "inconsistent data type", lambda c: c["ld"].link_data_frame(c["df5"], 0.5), None),
+    ("linked RangeDimension.link_data_array(index of another rank)", "mismatching shape", lambda c: c["ld"].link_data_array(c["m"], [-1]), None),
+    ("linked RangeDimension.link_data_array(index without -1)", "out-of-range index", lambda c: c["ld"].link_data_array(c["m"], [0, 1]), None),
+    ("linked SetDimension.link_data_array(index of another rank)", "mismatching shape", lambda c: c["ls"].link_data_array(c["m"], [-1]), None),
+    ("linked SetDimension.link_data_frame(column beyond the columns)", "out-of-range index", lambda c: c["ls"].link_data_frame(c["df5"], 3), None),
+    ("linked RangeDimension.ticks = [3, 1]", "unordered ticks", setter("ld", "ticks", [3.0, 1.0]), None),
+    ("linked RangeDimension.ticks = ['a']", "inconsistent data type", setter("ld", "ticks", ["a"]), None),
+    ("DataArray.polynom_coefficients = ['a', 'b']", "inconsistent data type", setter("a", "polynom_coefficients", ["a", "b"]), None),
+    ("DataArray.expansion_origin = 'x'", "inconsistent data type", setter("a", "expansion_origin", "x"), None),
+    ("DataArray.append(text)", "inconsistent data type", lambda c: c["a"].append(np.array(["x", "y"])), None),
+    ("DataArray.append([object()])", "unsupported data type", lambda c: c["a"].append([object()]), None),
+    ("DataArray.append(other rank)", "mismatching shape", lambda c: c["a"].append(np.zeros((2, 2))), None),
+    ("DataArray.append(mismatching extent)", "mismatching shape", lambda c: c["m"].append(np.zeros((1, 5)), axis=0), None),
+    ("Block.create_tag(name = id of an existing tag, position='abc')", "inconsistent data type",
+     lambda c: c["b"].create_tag(c["t"].id, "t", "abc"), None),
+    ("Block.create_data_array(name = id of an existing array, data=[object()])", "unsupported data type",
+     lambda c: c["b"].create_data_array(c["a"].id, "t", data=[object()]), None),
+    ("Block.create_multi_tag(name = id of an existing multi-tag, positions=<Tag>)", "wrong kind",
+     lambda c: c["b"].create_multi_tag(c["mt"].id, "t", c["t"]), None),
+    ("Block.create_data_frame(name = id of an existing frame, value out of range)", "value out of range",
+     lambda c: c["b"].create_data_frame(c["df"].id, "t", col_dict={"a": np.uint8}, data=[(300,)]), None),
+    ("Section.create_property(name = id of an existing property, integer beyond int64)", "value out of range",
+     lambda c: c["s"].create_property(c["pr"].id, [2 ** 70]), None),
+    ("DataArray.metadata = <section of another file>", "wrong block", lambda c: cross_file_metadata(c, "a"), None),
+    ("Block.metadata = <section of another file>", "wrong block", lambda c: cross_file_metadata(c, "b"), None),
+    ("Tag.metadata = <section of another file>", "wrong block", lambda c: cross_file_metadata(c, "t"), None),
     ("DataFrame.append_rows(row of 3 values)", "mismatching shape", lambda c: c["df"].append_rows([(1, 2.0, 3)]), None),
     ("DataFrame.append_column(wrong length)", "mismatching shape", lambda c: c["df"].append_column([1], "z", datatype=int), None),
     ("DataFrame.write_cell(row 9)", "out-of-range index", lambda c: c["df"].write_cell(1, position=(9, 0)), None),
